@@ -337,7 +337,10 @@ func (d *Decoder) readUntypedList(tag byte) (interface{}, error) {
 				aryValue = reflect.ValueOf(ary)
 				holder.change(aryValue)
 			}
-			ary[j] = it
+			if it != nil {
+				// a nested list arrives as its ref holder, a back-reference as a reflect.Value
+				ary[j] = EnsureRawValue(it).Interface()
+			}
 		}
 	}
 
